@@ -123,6 +123,19 @@ def Store.derive (σ : Store) (s : Slice) (e : Entry) : Store × Slice :=
   let a := σ.view s ++ [e]
   ({ arrays := σ.arrays ++ [a] }, { arr := σ.arrays.length, len := a.length })
 
+/-- CONTRAST (not the code): the derivation written with Go's `append(h.list, ga)`.  When the backing array has a free
+    slot behind the slice (`len < cap`) the new entry is written IN PLACE — into an array that the parent and every
+    other handler derived from it can see; only when the array is full is a new one allocated (with Go's doubling, so
+    that free slots exist from then on; `.attrs []` stands for an unused slot).  `tracelog.go` does not do this: it
+    allocates `len+1` and copies (`Store.derive`).  The two differ exactly in the aliasing this variant creates. -/
+def Store.deriveAppend (σ : Store) (s : Slice) (e : Entry) : Store × Slice :=
+  let arr := (σ.arrays[s.arr]?).getD []
+  if s.len < arr.length then
+    ({ arrays := σ.arrays.set s.arr (arr.set s.len e) }, { arr := s.arr, len := s.len + 1 })
+  else
+    let a := σ.view s ++ [e] ++ List.replicate (s.len + 1) (.attrs [])
+    ({ arrays := σ.arrays ++ [a] }, { arr := σ.arrays.length, len := s.len + 1 })
+
 /-- `type Handler struct`: `sink` names the shared (lock, sink, delivery channel) of the root handler -/
 structure Handler where
   level : Int
@@ -266,6 +279,35 @@ def stepR (level : Int) (r : Result) (c : Child) : Result :=
 
 /-- `Handle` -/
 def handle (cs : List Child) (level : Int) : Result := cs.foldl (stepR level) {}
+
+/-! ### the same loop with the control flow of a panic made explicit
+
+A child's `Handle` either returns (a value) or panics; a panic unwinds the stack until a frame with a deferred
+`recover` catches it.  `multilog.go` puts that frame around EACH child call (`runHandler` with
+`defer errs.Recovery(...)`): the panic ends that call only, becomes an error, and the loop goes on.  The contrast
+variant has one frame around the whole loop (`perChild = false`): the first panic ends the loop — the children after
+it never see the record. -/
+
+/-- the loop state: the result so far, and whether a panic has unwound the loop -/
+structure LoopSt where
+  res : Result := {}
+  unwound : Bool := false
+
+def stepExc (perChild : Bool) (level : Int) (st : LoopSt) (c : Child) : LoopSt :=
+  if st.unwound then st                       -- the loop is gone: nothing more is delivered
+  else if c.enabled level then
+    match c.outcome with
+    | .panic m =>
+      if perChild then                        -- caught by the frame of `runHandler`: an error like any other
+        { st with res := { deliveries := st.res.deliveries ++ [c.id], errors := st.res.errors ++ [.recovered m] } }
+      else                                    -- caught only outside the loop
+        { res := { deliveries := st.res.deliveries ++ [c.id], errors := st.res.errors ++ [.recovered m] },
+          unwound := true }
+    | _ => { st with res := { deliveries := st.res.deliveries ++ [c.id], errors := addErr st.res.errors (runChild c) } }
+  else st
+
+/-- `Handle` with explicit unwinding; `perChild = true` is the code -/
+def handleExc (perChild : Bool) (cs : List Child) (level : Int) : Result := (cs.foldl (stepExc perChild level) {}).res
 
 /-- `result.ErrorOrNil()`: nil exactly when nothing was accumulated -/
 def Result.isNil (r : Result) : Bool := r.errors.isEmpty
